@@ -490,6 +490,41 @@ impl Prop for C03 {
                 }
             },
         ));
+        let quick_g = tier == Tier::Quick;
+        v.push(Scope::new(
+            "gapped-runs",
+            "two collinear strokes separated by one blank or label cell, the first of every length up to 12 and at 20, 40, 64, 90, 99-102, 110, 130, 160, 200 (thorough: every length up to 260), the second 1 or 3 cells long, horizontal and vertical, free-standing or joined into one span by a bar beside the gap",
+            move |f| {
+                let lens: Vec<usize> = if quick_g { (1..=12).chain([20, 40, 64, 90, 99, 100, 101, 102, 110, 130, 160, 200]).collect() } else { (1..=260).collect() };
+                for l in lens {
+                    for gap in [' ', 'a'] {
+                        for k in [1usize, 3] {
+                            for join in 0..3 {
+                                let row0 = format!("{}{}{}", "-".repeat(l), gap, "-".repeat(k));
+                                f(Case::s(match join {
+                                    0 => row0.clone(),
+                                    1 => format!("{}\n{}|", row0, " ".repeat(l)),
+                                    _ => format!("{}|\n{}", " ".repeat(l), row0),
+                                }));
+                                let mut rows: Vec<String> = vec![];
+                                for _ in 0..l {
+                                    rows.push(" |".to_string());
+                                }
+                                rows.push(match join {
+                                    0 => format!(" {}", gap),
+                                    1 => format!(" {}-", gap),
+                                    _ => format!("-{}", gap),
+                                });
+                                for _ in 0..k {
+                                    rows.push(" |".to_string());
+                                }
+                                f(Case::s(rows.join("\n")));
+                            }
+                        }
+                    }
+                }
+            },
+        ));
         let fd = if tier == Tier::Quick { 2 } else { 3 };
         v.push(Scope::new(
             &format!("frame-defects-{}", fd),
